@@ -308,9 +308,27 @@ func ruleReplaySorted(c *Ctx) {
 				break
 			}
 		}
-		rs, ok := loop.(*ast.RangeStmt)
-		if !ok {
-			c.Violate(rule, s.Name, "apply-loop", c.P.Pos(n.Pos()), "replayTGData is not called from a range loop over a sorted slice (cannot establish commit order)", nil)
+		// a range loop, or the indexed form `for i := 0; i < len(list); i++` (ascending, step 1)
+		var rs *ast.RangeStmt
+		if li := asLoop(s.Info, loop); li != nil && li.Over != nil {
+			switch x := loop.(type) {
+			case *ast.RangeStmt:
+				rs = x
+			case *ast.ForStmt:
+				inc, isInc := x.Post.(*ast.IncDecStmt)
+				as, isAs := x.Init.(*ast.AssignStmt)
+				zero := false
+				if isAs && len(as.Rhs) == 1 {
+					v, isC := constInt(s.Info, as.Rhs[0])
+					zero = isC && v == 0
+				}
+				if isInc && inc.Tok == token.INC && identObj(s.Info, inc.X) == li.Index && zero {
+					rs = &ast.RangeStmt{For: x.For, X: li.Over, Body: x.Body}
+				}
+			}
+		}
+		if rs == nil {
+			c.Violate(rule, s.Name, "apply-loop", c.P.Pos(n.Pos()), "replayTGData is not called from a range loop (or an ascending indexed loop) over a sorted slice (cannot establish commit order)", nil)
 			continue
 		}
 		t := s.Info.TypeOf(rs.X)
@@ -318,11 +336,47 @@ func ruleReplaySorted(c *Ctx) {
 			c.Violate(rule, s.Name, "apply-loop", c.P.Pos(rs.Pos()), "transaction groups are applied while ranging over a map: Go map order is random, two TGs writing the same slot are applied in arbitrary order", nil)
 			continue
 		}
+		// sc/o/listReady: the scope in which the list is built, the list variable, and the event at
+		// which it must be sorted — the range statement itself, or, when the operand is a call of a
+		// module function that returns one local list on every path, that function's returns
+		sc := s
 		o := identObj(s.Info, rs.X)
+		listReady := func(sub, top ast.Node) bool { return sub == ast.Node(rs.X) }
+		if cx, isCall := unparen(rs.X).(*ast.CallExpr); isCall && o == nil {
+			if h := c.P.Funcs[CalleeName(s.Info, cx)]; h != nil && h.Decl.Body != nil && h.Decl.Type.Results != nil && h.Decl.Type.Results.NumFields() == 1 {
+				hinfo := h.Pkg.TypesInfo
+				var src types.Object
+				same := true
+				walkAll(h.Decl.Body, func(m ast.Node) bool {
+					if _, isLit := m.(*ast.FuncLit); isLit {
+						return false
+					}
+					if ret, ok := m.(*ast.ReturnStmt); ok {
+						var ro types.Object
+						if len(ret.Results) == 1 {
+							ro = identObj(hinfo, ret.Results[0])
+						} else if len(ret.Results) == 0 && len(h.Decl.Type.Results.List[0].Names) == 1 {
+							ro = hinfo.ObjectOf(h.Decl.Type.Results.List[0].Names[0])
+						}
+						if ro == nil || (src != nil && ro != src) {
+							same = false
+						}
+						src = ro
+					}
+					return true
+				})
+				if same && src != nil {
+					sc = c.P.ScopeOf(h)
+					o = src
+					listReady = func(sub, top ast.Node) bool { _, ok := sub.(*ast.ReturnStmt); return ok }
+				}
+			}
+		}
 		if o == nil {
 			c.Violate(rule, s.Name, "apply-loop", c.P.Pos(rs.Pos()), "range operand is not a local slice variable; cannot establish that it was sorted", nil)
 			continue
 		}
+		s := sc
 		sorted := func(sub, top ast.Node) bool {
 			call, ok := sub.(*ast.CallExpr)
 			if !ok {
@@ -370,7 +424,7 @@ func ruleReplaySorted(c *Ctx) {
 			}
 			return false
 		}
-		r := s.Run(Query{Target: func(sub, top ast.Node) bool { return sub == ast.Node(rs.X) }, Barrier: sorted})
+		r := s.Run(Query{Target: listReady, Barrier: sorted})
 		c.Floor(rule, s.Name, "sort calls on the replay list", r.BarrierSites, 1)
 		// no append to the list between sort and loop
 		r2 := s.Run(Query{Start: sorted, Target: func(sub, top ast.Node) bool {
